@@ -1,5 +1,7 @@
 import RzilVerif.Model.CTextPrint
 import Std.Data.String.ToNat
+import RzilVerif.Lemmas.LayoutPerm
+import RzilVerif.Lemmas.WfClosed
 /-!
 # C11 — the Lean parser of the emitted C text is a left inverse of a token-level printer
 
@@ -15,6 +17,10 @@ import Std.Data.String.ToNat
 5. `suffixName_*`: the `add_op` name determines base and counter (unconditionally); names from a
    strictly increasing counter are pairwise different; disjointness from user names needs a
    hypothesis (sufficient: user name does not end in a digit) and fails without it (witness).
+6. What `wfBodyProblems ctx b = []` buys (end of the file, lemmas in `Lemmas/WfClosed.lean`):
+   `wf_positional` (declared once and before use, one final `return`), `wf_layout` (`namesDistinct`, `noForwardRef`
+   of C16), `wf_denoteIL_closed` (the denotation mentions no inlined name).  The last two need `constFree`
+   (no declared name is a plugin constant); `exConst` shows they fail without it.
 
 The token-level statements put no lexical conditions on the strings inside tokens (identifier
 shape, no `"` inside a string literal, …): the character-level tokenizer is outside this file.
@@ -685,5 +691,112 @@ example : ∀ c, "tmp_x".toList.getLast? = some c → c.isDigit = false := by de
 
 /-- … and where the hypothesis fails: a user variable literally named `op_ADD_3` IS a generated name. -/
 example : "op_ADD_3".toList = suffixName "op_ADD".toList 3 := by decide
+
+/-! ## 6. What the well-formedness checker buys -/
+
+/-- An empty problem list is the recursive well-formedness `WfFrom` of the comment-free items. -/
+theorem wf_wfFrom (ctx : BodyCtx) (b : Body) (h : wfBodyProblems ctx b = []) :
+    WfFrom (bodyPre ctx b) [] (noComments b.items) := by
+  rw [wfBodyProblems_eq] at h
+  simp only at h
+  split at h
+  · rename_i hs
+    exact wfFrom_of_fold ctx _ _ (noComments_no_comment b.items) [] h hs
+  · simp at h
+
+/-- Declared once, before use, one final `return` — positional form.  The comment-free item list is
+    `ds ++ [return t]`; every `ds[i]` is a declaration; declared names are pairwise different and different from
+    the parameters / given names; every identifier used by the initialiser of `ds[i]` is the name of some `ds[j]`,
+    `j < i`, or a parameter / given name, or a plugin constant; same for `t` with all of `ds`. -/
+theorem wf_positional (ctx : BodyCtx) (b : Body) (h : wfBodyProblems ctx b = []) :
+    ∃ ds t, noComments b.items = ds ++ [Item.ret t] ∧
+      (∀ d ∈ ds, ∃ ty n rhs, d = Item.decl ty n rhs) ∧
+      (declNames ds).Nodup ∧
+      (∀ n ∈ declNames ds, n ∉ bodyPre ctx b) ∧
+      (∀ i ty n rhs, ds[i]? = some (Item.decl ty n rhs) → ∀ u ∈ rhs.uses,
+          u.1 ∈ declNames (ds.take i) ∨ u.1 ∈ bodyPre ctx b ∨ isPluginConst u.1 = true) ∧
+      (∀ u ∈ t.uses, u.1 ∈ declNames ds ∨ u.1 ∈ bodyPre ctx b ∨ isPluginConst u.1 = true) := by
+  obtain ⟨ds, t, h1, h2, h3, h4, h5, h6⟩ := wfFrom_positional _ _ [] (wf_wfFrom ctx b h)
+  refine ⟨ds, t, h1, h2, h3, fun n hn => (h4 n hn).2, ?_, ?_⟩
+  · intro i ty n rhs hi u hu
+    rcases h5 i ty n rhs hi u hu with h | h | h
+    · exact Or.inl h
+    · simp at h
+    · exact Or.inr h
+  · intro u hu
+    rcases h6 u hu with h | h | h
+    · exact Or.inl h
+    · simp at h
+    · exact Or.inr h
+
+/-- The premises of the layout theorems of C16.  `constFree`: no declared name is a plugin constant. -/
+theorem wf_layout (ctx : BodyCtx) (b : Body) (h : wfBodyProblems ctx b = []) (hc : constFree b.items = true) :
+    namesDistinct b.items = true ∧ noForwardRef b.items = true := by
+  have := wfFrom_layout _ _ [] (wf_wfFrom ctx b h) (by rw [constFree_noComments]; exact hc)
+  rwa [namesDistinct_noComments, noForwardRef_noComments] at this
+
+/-- Closedness: the denotation of a well-formed body mentions no name of an inlined (pure/effect/bool)
+    declaration. -/
+theorem wf_denoteIL_closed (ctx : BodyCtx) (b : Body) (h : wfBodyProblems ctx b = [])
+    (hc : constFree b.items = true) (t : Term) (hd : denoteIL b = some t) :
+    ∀ x ∈ ilNames b.items, t.mentions x = false := by
+  intro x hx
+  have hE : EnvClosed (buildEnvIL b.items []) [] := by
+    rw [← buildEnvIL_noComments]
+    exact closed_aux _ _ [] [] (wf_wfFrom ctx b h) (by rw [constFree_noComments]; exact hc)
+      (by intro p hp; simp at hp)
+  have hdom := buildEnvIL_dom b.items [] x (Or.inl hx)
+  simp only [denoteIL, bind, Option.bind] at hd
+  split at hd
+  · cases hd
+  · rename_i r _
+    simp only [pure, Option.some.injEq] at hd
+    subst hd
+    cases hm : ((r.subst (buildEnvIL b.items [])).eraseDup).mentions x with
+    | false => rfl
+    | true =>
+      have := subst_closed _ hE r x hdom
+      rw [eraseDup_mentions x _ hm] at this
+      cases this
+
+/-! ### Kernel-checked examples -/
+
+def exCtx : BodyCtx := { given := ["bundle", "hi", "pkt"], callees := [] }
+
+/-- `RzILOpPure *a = VARL("x"); RzILOpEffect *e = SETL("y", a); return e;` -/
+def exGood : Body := { header := none, items :=
+  [.decl "RzILOpPure *" "a" (.app "VARL" [.str "x"]),
+   .decl "RzILOpEffect *" "e" (.app "SETL" [.str "y", .id "a"]),
+   .ret (.id "e")] }
+
+example : wfBodyProblems exCtx exGood = [] ∧ constFree exGood.items = true := by decide +kernel
+example : namesDistinct exGood.items = true ∧ noForwardRef exGood.items = true :=
+  wf_layout exCtx exGood (by decide +kernel) (by decide +kernel)
+theorem exGood_denote : denoteIL exGood = some (.app "SETL" [.str "y", .app "VARL" [.str "x"]]) :=
+  optTermEqb_sound _ _ (by decide +kernel)
+example : ∀ x ∈ ["a", "e"], (Term.app "SETL" [.str "y", .app "VARL" [.str "x"]]).mentions x = false :=
+  wf_denoteIL_closed exCtx exGood (by decide +kernel) (by decide +kernel) _ exGood_denote
+
+/-- Forward reference: `a` uses `b`, declared later. -/
+def exFwd : Body := { header := none, items :=
+  [.decl "RzILOpPure *" "a" (.id "b"),
+   .decl "RzILOpPure *" "b" (.app "VARL" [.str "x"]),
+   .ret (.app "SETL" [.str "y", .app "ADD" [.id "a", .id "b"]])] }
+
+example : wfBodyProblems exCtx exFwd = ["identifier b used in the initialiser of a before/without declaration"] := by
+  decide +kernel
+example : noForwardRef exFwd.items = false := by decide +kernel
+example : (denoteIL exFwd).map (fun t => t.mentions "b") = some true := by decide +kernel
+
+/-- `constFree` is needed: the checker accepts a use of the plugin constant `true` before a declaration of that
+    name, so the body is "well-formed", yet it has a forward reference and its denotation is not closed. -/
+def exConst : Body := { header := none, items :=
+  [.decl "RzILOpPure *" "a" (.id "true"),
+   .decl "RzILOpPure *" "true" (.id "a"),
+   .ret (.app "SETL" [.str "y", .id "true"])] }
+
+example : wfBodyProblems exCtx exConst = [] ∧ constFree exConst.items = false ∧
+    noForwardRef exConst.items = false ∧
+    (denoteIL exConst).map (fun t => t.mentions "true") = some true := by decide +kernel
 
 end Rzil
